@@ -230,6 +230,8 @@ def remove_SplitSliceRead(op, arch):
             and consumer.type not in memory_only_ops
             # an NPU memory copy transfers the whole source tensor: it cannot apply a read offset / read shape
             and consumer.type != Op.Memcpy
+            # another slice read has a read offset / read shape of its own, which would be overwritten
+            and consumer.type != Op.SplitSliceRead
             and consumer.type != Op.Mul
             and consumer.original_type != Op.Transpose
             # the consumer must see the tensor in the shape in which the slice produces it: the read offset / read shape
